@@ -199,6 +199,7 @@ class Network(object):
     self.env = env
     self.servers = {}
     self.dns = {}
+    self.dns_dup = set()
     self.addr_owner = {}
     self.resolutions = 0
     self._conn_id = 0
@@ -236,7 +237,10 @@ class Network(object):
         # name service: a host name may resolve to an address of its own (net.dns), and that may change
         net.resolutions += 1
         key = host.decode('ascii', 'replace') if isinstance(host, bytes) else host
-        return [(AF_INET, SOCK_STREAM, 6, '', (net.dns.get(key, host), port))]
+        # resolvers list an address more than once now and then (several hosts-file lines, round-robin records):
+        # equal entries, each its own object
+        return [(AF_INET, SOCK_STREAM, 6, '', (net.dns.get(key, host), port))
+                for _ in range(2 if key in net.dns_dup else 1)]
 
     def factory(family=AF_INET, type_=SOCK_STREAM, *a):
       return SimSocket(net)
@@ -249,6 +253,7 @@ class Network(object):
       c.client_closed = True
     self.servers = {}
     self.dns = {}            # host name -> address it resolves to now (absent: the name is its own address)
+    self.dns_dup = set()     # host names the resolver lists twice
     self.addr_owner = {}     # address -> host name of the server that listens there now
     self.resolutions = 0
     self.fault_plan = {}
@@ -273,7 +278,15 @@ class Network(object):
         if not getattr(f, 'sticky', False):
           del self.fault_plan[key]      # a planned fault fires once
         self.faults_fired.append((key, f.kind, self.env.now))
+        if kind == 'connect':
+          self._connect_fault_at = (server.ep, co, self.env.now, f)
         return f
+    if kind == 'connect' and server.host in self.dns_dup:
+      # the same address listed again by the resolver: what made the connect fail a moment ago is still the case
+      last = getattr(self, '_connect_fault_at', None)
+      if last is not None and last[0] == server.ep and last[1] == co and self.env.now - last[2] < 0.5 and \
+          last[3].kind in ('refuse', 'error', 'eof'):
+        return last[3]
     if self.fault_fn is not None:
       return self.fault_fn(server, conn, kind, ordinal)
     return None
